@@ -3,6 +3,7 @@ package main
 import (
 	"fmt"
 	"go/constant"
+	"go/token"
 	"go/types"
 	"strings"
 )
@@ -115,7 +116,7 @@ func (sc *SpecCtx) eval(x *SExpr) Val {
 }
 
 func decimalToSMT(s string) string {
-	v := constant.MakeFromLiteral(s, 0, 0)
+	v := constant.MakeFromLiteral(s, token.FLOAT, 0)
 	if v.Kind() == constant.Unknown {
 		// go/constant needs token kind; fall back
 		return s
